@@ -63,12 +63,12 @@ func checkC16(spec *PropSpec, repo, tier string, seed int, workers int) int {
 	if rc1 != 0 {
 		return rc1
 	}
-	first, _ := os.ReadFile(filepath.Join(verifDir, "evidence", "C16.json"))
+	first, _ := os.ReadFile(filepath.Join(evidenceDir(), "C16.json"))
 	rc2 := checkC16Scenario(spec, repo, tier, seed, workers, -1, "-discarding")
 	// merge the two evidence files (the second run rewrote the file)
 	var a, b map[string]interface{}
 	if json.Unmarshal(first, &a) == nil {
-		second, _ := os.ReadFile(filepath.Join(verifDir, "evidence", "C16.json"))
+		second, _ := os.ReadFile(filepath.Join(evidenceDir(), "C16.json"))
 		if json.Unmarshal(second, &b) == nil {
 			ca, _ := a["coverage"].(map[string]interface{})
 			cb, _ := b["coverage"].(map[string]interface{})
@@ -90,7 +90,7 @@ func checkC16(spec *PropSpec, repo, tier string, seed int, workers int) int {
 				wb, _ := b["wall_s"].(float64)
 				b["wall_s"] = wa + wb
 				data, _ := json.MarshalIndent(b, "", " ")
-				os.WriteFile(filepath.Join(verifDir, "evidence", "C16.json"), data, 0o644)
+				os.WriteFile(filepath.Join(evidenceDir(), "C16.json"), data, 0o644)
 			}
 		}
 	}
@@ -100,8 +100,8 @@ func checkC16(spec *PropSpec, repo, tier string, seed int, workers int) int {
 func checkC16Scenario(spec *PropSpec, repo, tier string, seed int, workers int, R int, suffix string) int {
 	id := "C16"
 	t0 := time.Now()
-	evPath := filepath.Join(verifDir, "evidence", id+".json")
-	os.MkdirAll(filepath.Join(verifDir, "evidence", "replay"), 0o755)
+	evPath := filepath.Join(evidenceDir(), id+".json")
+	os.MkdirAll(filepath.Join(evidenceDir(), "replay"), 0o755)
 	ev := map[string]interface{}{"property_id": id, "tier": tier, "seed": seed, "level": spec.Level}
 	var inconclusive, violations []string
 	var samples []interface{}
@@ -208,7 +208,7 @@ func checkC16Scenario(spec *PropSpec, repo, tier string, seed int, workers int, 
 			}
 			vec.Schedule = append(vec.Schedule, map[string]string{"thread": th, "op": op, "obj": obj})
 		}
-		path := filepath.Join(verifDir, "evidence", "replay", fmt.Sprintf("%s-schedule%s-%s.json", id, suffix, q.Name))
+		path := filepath.Join(evidenceDir(), "replay", fmt.Sprintf("%s-schedule%s-%s.json", id, suffix, q.Name))
 		data, _ := json.MarshalIndent(vec, "", " ")
 		os.WriteFile(path, data, 0o644)
 		bin, err := n.bin("wire")
